@@ -44,6 +44,7 @@ def nested_fields(prog):
 def region_reads(prog, f, region, rec_name=None):
     reads = set()
     calls = set()
+    rec_names = ({rec_name} | set(getattr(f, "inlined", ()))) if rec_name is not None else set()
     fns = [(f, region)]
     # closures created inside the region
     for b in region:
@@ -65,7 +66,7 @@ def region_reads(prog, f, region, rec_name=None):
             t = g.term(b)
             if t["k"] == "call":
                 calls.add(callee_name(t))
-                if rec_name is None or callee_name(t) == rec_name:
+                if rec_name is None or callee_name(t) in rec_names:
                     for o in t["args"]:
                         flds, _, _ = backward_slice(g, o)
                         reads |= flds
@@ -75,7 +76,7 @@ def region_reads(prog, f, region, rec_name=None):
         for g, blocks in fns:
             for b in blocks:
                 t = g.term(b)
-                if t["k"] == "call" and callee_name(t) == rec_name:
+                if t["k"] == "call" and callee_name(t) in rec_names:
                     for o in t["args"]:
                         flds, _, _ = backward_slice(g, o)
                         reads2 |= flds
@@ -87,7 +88,7 @@ def region_reads(prog, f, region, rec_name=None):
                     c = prog.fn_opt(norm_name(st["rv"]["clo"]))
                     if c is None:
                         continue
-                    has_rec = any(callee_name(t) == rec_name for g in [c] + prog.closures_of(c) for _, t in g.calls())
+                    has_rec = any(callee_name(t) in rec_names for g in [c] + prog.closures_of(c) for _, t in g.calls())
                     if not has_rec:
                         continue
                     cl = st["p"]["l"]
@@ -137,7 +138,9 @@ def run(prog, only=None):
                 continue
             region = sw.arm_region(v)
             reads, calls = region_reads(prog, f, region, rec_name=name)
-            recurses = name in calls
+            # the walk may recurse through a helper of its own (a generic `for_each_..(action, visit)` that the anchor only
+            # wraps): helpers unknown to the inventory that were inlined into the anchor and call themselves are the walk too
+            recurses = bool(({name} | set(getattr(f, "inlined", ()))) & calls)
             missing = sorted(x for x in need if x[0] != "<direct>" and x not in reads)
             res.inst("%s/%s" % (short, v), needs=sorted(x[1] for x in need), missing=[m[1] for m in missing], recurses=recurses)
             ok = not missing and recurses
